@@ -28,7 +28,7 @@ pub fn step(ctx: &Ctx, w: &World, ev: &mut Ev) {
         return;
     }
     let actor = w.resolve(&ctx.step.actor);
-    let pb = ctx.pre.position(v, &actor).map(|p| p.block);
+    let pb = ctx.model.touched.get(&(v, actor.clone())).cloned();
     let r = restricted(h, ctx.model.liq_block[v], pb);
     let kind = ctx.step.op.kind();
     ev.eval(true, &("main", r, kind, ctx.out.ok), || json!({"where": "main_history", "op": kind, "actor": actor, "restricted": r, "accepted": ctx.out.ok, "height": h}));
@@ -62,7 +62,8 @@ pub fn probe(r: &mut Runner) {
         let traders = r.w.trading_accounts();
         for t in traders {
             let pos = r.obs.position(v, &t).cloned();
-            let is_r = restricted(h, r.model.liq_block[v], pos.as_ref().map(|p| p.block));
+            let touched = r.model.touched.get(&(v, t.clone())).cloned();
+            let is_r = restricted(h, r.model.liq_block[v], touched);
             // a small trade that would normally be accepted
             let lev = d;
             let n = (vo.q / 10_000).max(1000);
@@ -86,17 +87,17 @@ pub fn probe(r: &mut Runner) {
                     let dmp = w.dump();
                     (out, dmp)
                 });
-                let rel = if pos.is_none() { "bystander_no_position" } else if is_r { "touched_this_block" } else { "position_from_earlier_block" };
+                let rel = if pos.is_none() { "bystander_no_position" } else if is_r { "touched_this_block" } else { "position_not_touched_this_block" };
                 r.ev.eval(true, &("probe", is_r, op.kind(), rel, out.ok), || json!({"where": "fork", "op": op.kind(), "actor": t, "restricted": is_r, "accepted": out.ok, "height": h}));
                 r.ev.count(if is_r { "probe/restricted" } else { "probe/unrestricted" });
                 if is_r {
                     if out.ok {
-                        r.ev.violation("restricted_succeeded", &format!("{},probe", op.kind()), json!({"actor": t, "height": h, "position_block": pos.as_ref().map(|p| p.block)}));
+                        r.ev.violation("restricted_succeeded", &format!("{},probe", op.kind()), json!({"actor": t, "height": h, "last_trade_height": touched}));
                     } else if pre_dump != post_dump {
                         r.ev.violation("restricted_succeeded", &format!("{},state_changed", op.kind()), json!({"actor": t}));
                     }
                 } else if !out.ok && out.err.contains("Only one action allowed") {
-                    r.ev.violation("bystander_blocked", &format!("{},probe,{}", op.kind(), rel), json!({"actor": t, "height": h, "position_block": pos.as_ref().map(|p| p.block)}));
+                    r.ev.violation("bystander_blocked", &format!("{},probe,{}", op.kind(), rel), json!({"actor": t, "height": h, "last_trade_height": touched, "stored_block_number": pos.as_ref().map(|p| p.block)}));
                 } else if out.ok {
                     r.ev.count("probe/unrestricted_accepted");
                 }
